@@ -926,8 +926,10 @@ def run(ctx):
                 continue
             sem_terms.append(f"({x.cre}, {absn.cstr(s2)}, {absn.cbool(fm)}, {absn.cbool(sr)})")
             sem_src.append((x.pattern, s2, fm, sr))
+    slow_sem = []          # cases on which the derivative matcher does not finish (no ACI normalisation): not a verdict
     bad_sem = common.eval_cases(ctx.workdir, "c09sem", sem_terms, "rscase", "resem_case_ok",
-                                extra_requires="Require Import D42.PyRandom D42.RegexGen.", per_file=250)
+                                extra_requires="Require Import D42.PyRandom D42.RegexGen.", per_file=250, slow=slow_sem, limit=90)
+    stats["sem_too_big"] += len(slow_sem)
     for i in bad_sem[:10]:
         p, s2, fm, sr = sem_src[i]
         ctx.violation(f"D42.Regex matcher disagrees with the re engine on {p!r} / {s2!r}", {
